@@ -86,6 +86,10 @@ def mp_post(ctx, st, result):
 def mp_raises(ctx, st, exc):
     d = st.data
     ctx.oblige("raises", "rejected=>ValueError-for-a-conflict-or-an-unsupported-keyword", exc.cls == "ValueError" and (d["conflict"] or d["extra_kw"]))
+    a = d["action"]
+    ctx.oblige("frame", "a-refused-attach-leaves-the-inner-parser's-actions-as-they-were(so that it can be attached under another key, like a group refused in any other style)-and-registers-nothing-in-the-outer-parser",
+               a.attrs["dest"] == "r" and a.attrs["option_strings"] == ["--r"] and not d["outer_actions"] and not d["outer_opts"] and not d["outer_required"] and not d["added"]
+               and not [e for e in ctx.events if e[0] in ("opts.update", "groups.extend")])
 
 
 UNITS = [
@@ -290,3 +294,7 @@ def cg_raises(ctx, st, exc):
 
 UNITS.append(Unit("C07", "jsonargparse._signatures:SignatureArguments._create_group_if_requested", cg_setup, cg_post, cg_raises, max_paths=5000, expect_cover=("return", "raise:ValueError"),
                   trusted=["add_argument_group / group.add_argument by contract (add_argument: its own unit)"]))
+
+
+from contracts.signature_units import add_class_arguments_unit  # noqa: E402
+UNITS.append(add_class_arguments_unit("C07"))
